@@ -130,6 +130,8 @@ def evaluate(ctx, cases):
                         good = int(v) == int(row[k])
                     elif row[k] in ('nan', 'inf', '-inf'):
                         good = (v != v) if row[k] == 'nan' else v == float(row[k])
+                    elif v != v or v in (float('inf'), float('-inf')):
+                        good = False
                     else:
                         from fractions import Fraction
                         a, b = Fraction(v), Fraction(row[k]); good = abs(a - b) <= Fraction(1, 10**12) * max(abs(a), abs(b), 1)
